@@ -33,6 +33,9 @@ impl<S: BitmapSlice + Send + Sync> PassthroughFs<S> {
         let data = self.inode_map.get(inode)?;
         if !is_safe_inode(data.mode) {
             Err(ebadf())
+        } else if self.seal_size.load(Ordering::Relaxed) && flags & libc::O_TRUNC != 0 {
+            // A truncating open would change the size of a sealed file.
+            Err(eperm())
         } else {
             let mut new_flags = self.get_writeback_open_flags(flags);
             if !self.cfg.allow_direct_io && flags & libc::O_DIRECT != 0 {
@@ -53,6 +56,10 @@ impl<S: BitmapSlice + Send + Sync> PassthroughFs<S> {
         let data = self.inode_map.get(inode)?;
         if !is_safe_inode(data.mode) {
             return Err(ebadf());
+        }
+        if self.seal_size.load(Ordering::Relaxed) && flags & libc::O_TRUNC != 0 {
+            // A truncating open would change the size of a sealed file.
+            return Err(eperm());
         }
         let mut new_flags = self.get_writeback_open_flags(flags);
         if !self.cfg.allow_direct_io && flags & libc::O_DIRECT != 0 {
